@@ -96,6 +96,8 @@ def run_chain(case):
         kw["headers"]["Cookie"] = CALLER_COOKIE_HDR
         kw["headers"]["Proxy-Authorization"] = CALLER_PA
         kw["cookies"] = dict([REQ_COOKIE])
+        if case.get("host_header"):
+            kw["headers"]["Host"] = "virt.test"       # names the host of the URL that is asked for, and only that one
         if case.get("chunked"):
             kw["chunked"] = True          # the caller asks for chunked framing of its body
         if case.get("compress"):
@@ -121,13 +123,27 @@ def run_chain(case):
             except Exception as e:  # noqa: BLE001
                 result["error"] = type(e).__name__
 
-        task = loop.create_task(go())
+        # history: connections to the origins already idle in the pool (an earlier, unrelated request on the session)
+        warm = None
+        if case.get("drop_reused"):
+            async def warm_up():
+                for o in dict.fromkeys(origins):
+                    async with session.get(ORIGINS[o] + "/warm") as r:
+                        await r.read()
+            warm = loop.create_task(warm_up())
+        task = None
         records = []
         answered = {}
         continued = set()
-        for _ in range(400):
+        dropped = set()
+        for _ in range(600):
             loop.drain(500)
             progressed = False
+            if task is None and (warm is None or warm.done()):
+                if warm is not None:
+                    warm.result()
+                task = loop.create_task(go())
+                progressed = True
             for idx, (ct, st, peer) in enumerate(connector.created):
                 if st.deliverable():
                     st.deliver()
@@ -142,8 +158,20 @@ def run_chain(case):
                     m = reqs[done]
                     done += 1
                     label = next((o for o in ORIGINS if key_matches(peer.key, o)), "?")
-                    records.append((label, m))
                     path = m.target.decode().split("?")[0]
+                    if path == "/warm":
+                        peer.send(b"HTTP/1.1 200 OK\r\nContent-Length: 2\r\n\r\nok")
+                        progressed = True
+                        continue
+                    if case.get("drop_reused") and done > 1 and not dropped and path != "/h0":      # once per call: the client retries once
+                        # the pooled connection dies as the redirected request arrives on it: the client sends the
+                        # request again on a fresh connection - the same request, with what this hop may carry
+                        dropped.add(idx)
+                        records.append((label, m, "dropped"))
+                        st.close()
+                        progressed = True
+                        break
+                    records.append((label, m))
                     k = int(path[2:]) if path.startswith("/h") and path[2:].isdigit() else -1
                     if 0 <= k < len(hops):
                         st_code, form = hops[k]
@@ -161,10 +189,16 @@ def run_chain(case):
                 if ct.deliverable():
                     ct.deliver()
                     progressed = True
-            if task.done() and not progressed:
+                elif ct.eof_deliverable():
+                    ct.deliver_eof()
+                    progressed = True
+            if task is not None and task.done() and not progressed:
                 break
             if not progressed and not loop.has_ready():
                 break
+        if task is None:
+            task = loop.create_task(go())
+            loop.drain(50)
         hung = not task.done()
         if hung:
             task.cancel()
@@ -232,19 +266,29 @@ def judge(part, case, records, result, hung, leaked):
             cur_m, cur_b = "GET", b""
             dropped_from = min(dropped_from, k + 1)
     # ---- what the origins saw
+    # (an attempt whose pooled connection died is the same hop as the attempt that follows it: it is held to the same
+    # rules, and it does not count as a request of the chain)
+    all_recs = records
+    records = [(r[0], r[1]) for r in all_recs if len(r) == 2]
+    seq = []
+    kk = 0
+    for r in all_recs:
+        seq.append((kk, r[0], r[1]))
+        if len(r) == 2:
+            kk += 1
     if len(records) > len(expected):
         extra = records[len(expected)]
         V(f"extra-request:{stop or 'chain-end'}", f"{len(records)} requests were sent, at most {len(expected)} expected ({stop or 'end of chain'}); extra one went to {extra[0]} {extra[1].target!r}")
     if len(records) > max(maxr, 1):
         V("more-requests-than-max_redirects", f"{len(records)} requests with max_redirects={maxr}")
-    same_origin_so_far = True
-    for k, (label, m) in enumerate(records[:len(expected)]):
+    for k, label, m in seq:
+        if k >= len(expected):
+            continue
         want_o, want_m, want_b = expected[k]
         if label != want_o:
             V("wrong-origin", f"hop {k} went to {label}, expected {want_o}")
             continue
-        if k > 0 and origins[k] != origins[k - 1]:
-            same_origin_so_far = False
+        same_origin_so_far = all(origins[j] == origins[0] for j in range(k + 1))
         got_m = m.method.decode().upper()
         if got_m != want_m:
             V(f"method-table:{hops[k - 1][0] if k else 'first'}:{method}->{got_m}", f"hop {k} used {got_m}, the documented table gives {want_m}")
@@ -270,6 +314,12 @@ def judge(part, case, records, result, hung, leaked):
                   f"hop {k} repeats the {method} of hop 0 with the same body, but its body-describing fields differ (first, now): {diff}")
         if want_b is not None and got_b != want_b and not (want_m == "HEAD"):
             V(f"body-table:{hops[k - 1][0] if k else 'first'}", f"hop {k} carried body {m.body[:20]!r}, expected {want_b[:20]!r}")
+        if case.get("host_header"):
+            hh = header(m, "Host")
+            if k == 0 and hh != "virt.test":
+                V("caller-host-not-sent", f"hop 0 carried Host {hh!r}, the caller asked for 'virt.test'")
+            if k > 0 and hh == "virt.test":
+                V("caller-host-follows-redirect", f"hop {k} ({label}) carried the caller's Host header")
         # ---- secrets
         auth = header(m, "Authorization")
         cookie = header(m, "Cookie") or ""
@@ -325,7 +375,7 @@ def judge(part, case, records, result, hung, leaked):
             V("final-status", f"final status {result.get('status')}")
     if stop is None and err is not None:
         V(f"chain-fails:{err}", "a well-formed chain ended with an error")
-    part.outcome((stop, err, len(records), tuple(m.method for (_l, m) in records)))
+    part.outcome((stop, err, len(records), len(all_recs) - len(records), tuple(m.method for (_l, m) in records)))
 
 
 def cases(quick):
@@ -375,6 +425,21 @@ def cases(quick):
                 out.append({"origins": ["A", "A", "A"], "hops": [(s1, "rel"), (s2, "rel")], "method": mth, "body": "bytes", opt: True})
         for s1 in STATUSES:
             out.append({"origins": ["A", "B"], "hops": [(s1, "abs")], "method": "POST", "body": "bytes", opt: True})
+    # three hops of mixed kinds: a hop that keeps the body, one that drops it, one that would keep it again
+    for s1, s2, s3 in itertools.product((307, 308, 301, 303), (303, 301, 307), (302, 307, 303)):
+        for mth in ("POST", "PUT"):
+            for o in (["A", "A", "A", "A"], ["A", "A", "B", "B"]):
+                out.append({"origins": o, "hops": [(s1, "abs"), (s2, "abs"), (s3, "abs")], "method": mth, "body": "bytes"})
+    # the pooled connection of a later hop dies as the redirected request arrives: the transparent retry is that hop again
+    for o in (["A", "B"], ["A", "B", "A"], ["A", "A8", "B"], ["AS", "A", "B"]):
+        for st in (302, 307):
+            out.append({"origins": o, "hops": [(st, "abs")] * (len(o) - 1), "method": "GET", "body": "none", "drop_reused": True})
+            out.append({"origins": o, "hops": [(st, "abs")] * (len(o) - 1), "method": "GET", "body": "none", "drop_reused": True, "url_creds": True, "auth_header": False})
+    # a Host header of the caller's
+    for o in (["A", "A", "A"], ["A", "B", "A"], ["A", "A8", "B"]):
+        for st in (302, 307):
+            for mth, body in (("GET", "none"), ("POST", "bytes")):
+                out.append({"origins": o, "hops": [(st, "abs"), (st, "abs")], "method": mth, "body": body, "host_header": True})
     # max_redirects=0
     for mth, body in (("GET", "none"), ("POST", "bytes")):
         out.append({"origins": ["A", "A", "A"], "hops": [(302, "rel"), (302, "rel")], "method": mth, "body": body, "max_redirects": 0})
